@@ -2,7 +2,6 @@
 from harness.core import Ctx, replay
 from harness.checks import sgcommon
 
-DIAMOND = {"DA", "DB1", "DB2", "DD"}
 
 
 def main():
@@ -20,59 +19,45 @@ def main():
         return any(s["a"] == "query" and (s["must"] or s["may"]) for s in h)
     hs, total = sgcommon.histories(ctx, "SymbolGraph_gen_c13t.cfg" if thorough else "SymbolGraph_gen_c13.cfg", keep,
                                    None if thorough else 6000)
+    # second family: Person/Company histories in which relations are asserted between queries (the registry must not
+    # grow a second node for an instance it already knows)
+    hs_b, total_b = sgcommon.histories(ctx, "SymbolGraph_gen_c14.cfg",
+                                       lambda h: any(s["a"] == "relate" for s in h) and any(s["a"] in ("drop", "collect") for s in h),
+                                       20000 if thorough else 2500)
+    ctx.cov["histories_in_bound_relate_family"] = total_b
+    hs = hs + hs_b
     cases = [{"mode": "c13", "h": h} for h in hs]
     results = replay("sg", cases)
     ctx.replayed = len(cases)
-    ctx.exhaustive = len(hs) == total
+    ctx.exhaustive = len(hs) == total + total_b
     ctx.cov["histories_in_bound"] = total
     names = [f"h{i}" for i in range(len(cases))]
+    reuse = 0
     for name, c, r in zip(names, cases, results):
-        tracked = set()
-        cls = {}
-        bad = None
-        f18 = False
+        tracked, cls, bad = set(), {}, None
+        reuse += r.get("addr_reuse", 0)
         for m, o in zip(c["h"], r["steps"]):
             if m["a"] == "create":
                 tracked.add(m["o"])
                 cls[m["o"]] = m["c"]
             elif m["a"] == "clear":
                 tracked = set()
+            elif m["a"] == "relate":
+                tracked |= {m["p"], m["c"]}
             elif m["a"] == "query":
-                census = set(o["census_before"])
-                okcls = set(m["must"]) | set(m["may"])          # model: class matches (model-alive ones)
-                # class match for objects the model thought dead but the census still sees (kept alive by krrood itself)
-                from_model = {"Base": {"Base", "Mid", "Leaf"}, "Mid": {"Mid", "Leaf"}, "DA": DIAMOND, "DB1": {"DB1", "DD"},
-                              "DB2": {"DB2", "DD"}}.get(m["c"], {m["c"]})
-                must = {x for x in census & tracked if cls[x] in from_model}
-                may = {x for x in census - tracked if cls[x] in from_model}
-                bag = {int(k): v for k, v in o["bag"].items()}
-                problems = []
-                if o.get("error"):
-                    problems.append("exception " + o["error"])
-                if o["none"]:
-                    problems.append(f"{o['none']} dead (None) results")
-                if o["foreign"]:
-                    problems.append(f"{o['foreign']} results that are no instance of this history")
-                for x in must:
-                    if bag.get(x, 0) == 0:
-                        problems.append(f"live instance {x} ({cls[x]}) missing")
-                for x, n in bag.items():
-                    if x not in must and x not in may:
-                        problems.append(f"instance {x} ({cls.get(x)}) returned but not a live instance of {m['c']}")
-                    if n > 1:
-                        if cls.get(x) == "DD" and m["c"] == "DA" and n == 2:
-                            f18 = True
-                        else:
-                            problems.append(f"instance {x} returned {n} times")
+                problems = sgcommon.judge_query(m["c"], set(o["census_before"]), tracked, cls, o)
                 if problems and bad is None:
                     bad = {"query": m, "observed": o, "problems": problems}
+        if bad is None:
+            au = sgcommon.judge_audit(c["h"], r)
+            if au:
+                bad = au[0]
         ctx.case(c["h"], True, sample={"history": [(s["a"], s.get("c", s.get("o"))) for s in c["h"]],
                                        "observed_last": r["steps"][-1]})
         if bad:
             ctx.violation({"history": c["h"], **bad}, note="query result differs from the live instances (census) of the type")
-        elif f18:
-            ctx.known_finding("C13-F18", {"history": c["h"]})
-    v = sgcommon.validate_h1(ctx, results, names, pinned=sgcommon_pinned())
+    ctx.cov["address_reuse_observed"] = reuse
+    v = sgcommon.validate_h1(ctx, results, names, pinned=False)
     for name, c in zip(names, cases):
         vv = v.get(name)
         if vv and vv["v"].startswith("prop:C13"):
